@@ -103,7 +103,7 @@ def run_pmm(ctx, prop):
     tr3 = os.path.join(ctx.work, "trace_t.ndjson")
     n = (400 if q else 6000) if boot else (150 if q else 3000)
     rc, out, _ = ctx.gotest("kernel", "mm/pmm", HARNESS, "TestVerifPmmRandom",
-                            env={"TRACE_OUT": tr3, "NTRACES": n, "VERIF_PMM_MODE": mode}, timeout=900)
+                            env={"TRACE_OUT": tr3, "NTRACES": n, "VERIF_PMM_MODE": mode}, timeout=400)
     if rc != 0:
         raise vlib.Broken("pmm random harness failed:\n" + out[-3000:])
     traces.append(("T-random", tr3))
